@@ -155,6 +155,32 @@ const c08Probe = `{namespace probe}
 [{$body|noAutoescape|truncate:40}]
 {/template}
 
+/**
+ * @param? u
+ * @param? e
+ */
+{template .calls}
+{call .show data="augmentMap($u, $e)"}{param name: 'P' /}{/call}
+{call .show data="augmentMap($e, $u)"}{param name}Q{/param}{/call}
+{call .show data="$u"}{param name: 'R' /}{param extra: 1 /}{/call}
+{call .show data="$u.inner"}{param name: 'S' /}{/call}
+{call .show data="$u?.inner"}{param extra}T{/param}{/call}
+{call .show data="['name': 'lit']"}{param name: 'U' /}{/call}
+{call .show data="[:]"}{param name: 'V' /}{/call}
+{call .show data="$ij.m"}{param name: 'W' /}{/call}
+{call .show data="all"}{param name: 'X' /}{param u: 'shadow' /}{/call}
+{call .show data="$e ?: $u"}{param name: 'Y' /}{/call}
+{/template}
+
+/**
+ * @param? name
+ * @param? extra
+ * @param? u
+ */
+{template .show}
+<{$name}{$extra ?: ''}{if $u}.{/if}>
+{/template}
+
 /** @param visits */
 {template .ok}
 {let $d}Hello {/let}{$d}world{call .wrap}{param body}b{/param}{/call}
@@ -245,12 +271,18 @@ func directC08(g *G, rep *Report) {
 		for _, f := range b.files {
 			tmpls = append(tmpls, f.tmpls...)
 		}
-		tmpls = append(tmpls, &gTemplate{ns: "probe", short: "blk"}, &gTemplate{ns: "probe", short: "ok"}, &gTemplate{ns: "probe", short: "blk"}, &gTemplate{ns: "probe", short: "ok"})
+		tmpls = append(tmpls, &gTemplate{ns: "probe", short: "blk"}, &gTemplate{ns: "probe", short: "ok"}, &gTemplate{ns: "probe", short: "blk"}, &gTemplate{ns: "probe", short: "ok"},
+			&gTemplate{ns: "probe", short: "calls"}, &gTemplate{ns: "probe", short: "calls"}, &gTemplate{ns: "probe", short: "show"})
 		var datas []data.Map
 		for _, t := range tmpls {
 			datas = append(datas, toData(bg.dataFor(t)))
 		}
 		datas = append(datas, toData(map[string]interface{}{"visits": int64(1), "u": map[string]interface{}{"name": "Ann"}}), toData(map[string]interface{}{"visits": int64(4)}))
+		// data for probe.calls: maps handed to callees through every form of data="…" (empty and non-empty second maps)
+		datas = append(datas,
+			toData(map[string]interface{}{"u": map[string]interface{}{"name": "Ann", "inner": map[string]interface{}{"name": "In"}}, "e": map[string]interface{}{}}),
+			toData(map[string]interface{}{"u": map[string]interface{}{"name": "Bob", "inner": map[string]interface{}{}}, "e": map[string]interface{}{"name": "E", "k": int64(1)}}),
+			toData(map[string]interface{}{"u": map[string]interface{}{}, "e": map[string]interface{}{}}))
 		datas = append(datas, data.Map{}, toData(map[string]interface{}{"i": "str", "s": int64(5), "l": "notalist", "m": []interface{}{int64(1)}, "b": nil, "f": "x", "n": int64(1)}))
 		ij := toData(map[string]interface{}{"s": "ij", "n": int64(2), "m": map[string]interface{}{"a": int64(1)}})
 		tofu := soyhtml.NewTofu(reg)
